@@ -31,6 +31,12 @@ CLAIMED = {
     'C11': ('s5/C11', TECH + 'UF / node identity with fresh variables per update and POISON for uninitialised buffers; histories enumerated exhaustively to length 3',
             'After every operation sequence up to length 3 over {evaluate order 0/1/2, global evaluate, update same shape / other segment count / other coefficient count, rejected update, copy, assign over a warm object, derivative()} every evaluation and derivative trajectory of every live object is node-identical to a fresh object built from the data it must reflect; spline trajectories after update (both overloads) equal a fresh spline and earlier copies keep the old data.',
             'sequence length <= 3; shapes listed in evidence'),
+    'C16': ('s5/C16', 'symbolic execution of the real headers (recording scalar): every finiteness test / threshold comparison is a fork; paths enumerated by re-execution, feasibility and verdict==specification decided by z3 in the IEEE-754 theory (QF_FP) over all binary64 inputs incl. NaN and +-inf; concrete enumeration for size mismatches, PPolyND shapes and at() index classes',
+            'On every explored path the value returned by setInitState (both overloads) equals the specification predicate for every binary64 input of that path (all paths for small configurations; all paths within 1-2 flipped decisions of the all-valid path for larger ones); isValid, operator bool, getLastError and checkValidity agree with it after every call in every initialisation sequence up to length 2 (3 thorough); size mismatches; PPolyND rejection conditions and at() on 7 index classes.',
+            'int arguments by class; larger configurations by bounded flips; observation on checkValidity after the empty-time-points early return in DESIGN s8'),
+    'C17': ('s5/C17', TECH + 'all branch combinations of QuadInvTimeMap by the path explorer; Real interpretation (nlsat, sqrt as y>=0,y*y=x) + AD for the backward rule; IEEE-754 binary64 check of positivity / range / radicand sign by CBMC on the recorded path printed as straight-line C',
+            'For every real tau: toTime > 0, strictly increasing on all three feasible branch pairs, value and derivative of both branch formulas agree at the switch, toTau(toTime(tau)) == tau and toTime(toTau(T)) == T for T > 0 (radicands non-negative), backward == g * d toTime/d tau on every feasible branch pair and independent of its T argument; identity map returns its arguments (node identity). Binary64 (CBMC): toTime finite and > 0 for |tau| <= 1e6, >= 1 on the positive branch and <= 1 on the other, toTau finite with non-negative radicand for T in [1e-6, 1e6].',
+            'IEEE-level monotonicity between adjacent doubles inside one branch is NOT established (no verdict from the SAT back ends, DESIGN s3.6)'),
     'C20': ('s5/C20', TECH + 'integer-valued fork on floor((end-start)/dt) (one path per step count 0..6, path condition solver-checked); Real interpretation for the sequence contract, UF for batch == pointwise and the Riemann-sum identity',
             'For symbolic start <= end and dt > 0 and every step count 0..6: first sample == start, sample i == start + i dt, strictly increasing, no sample beyond end + 1e-6, end appended iff the last regular sample is more than 1e-6 short, last element within 1e-6 of end; batch == pointwise; getTrajectoryLength == left Riemann sum of ||v|| over the generated sequence; zero()/constant() factories initialised on the given breakpoints with the specified values at every t and order.',
             'exact-real reading: IEEE floor/rounding edge cases and step counts > 6 (incl. int overflow) are outside the claim'),
